@@ -148,8 +148,9 @@ def lit_of(node, varmap):
         a = node.args[0]
         if isinstance(a, ast.Name) and a.id in varmap:
             return (pos, varmap[a.id])
-        if isinstance(a, ast.JoinedStr):  # f"xor_inv_{n}"
-            return (pos, "inv")
+        if isinstance(a, ast.Tuple) and len(a.elts) == 2 and isinstance(a.elts[0], ast.Constant) \
+                and a.elts[0].value == "xor_inv" and isinstance(a.elts[1], ast.Name) and a.elts[1].id == "n":
+            return (pos, "inv")   # the tuple key ("xor_inv", n)
     return None
 
 
